@@ -1119,3 +1119,31 @@ ASSUMPTIONS += [
     "API; Program.is_reachable and CFGNode.CanHaveCombination are "
     "reachability-only approximations (typegraph/cfg.cc)",
 ]
+
+EXPLANATION += (
+    "  R14.25 (rules/c14_location_keys.py): pytype hands out one abstract "
+    "object per code location by memoising on the opcode being executed "
+    "(`<..>.current_opcode`: the Instance a class call creates, the Unknown "
+    "of a call, the instance an annotation is instantiated to); what keeps "
+    "`a, b = A(), A()` two objects - so that `a.foo = 1; b.foo` is flagged - "
+    "is that the memo key is as fine as the opcode's identity.  In every "
+    "non-test module that mentions current_opcode, every function that both "
+    "stores into a container under a key and looks it up under the same key "
+    "(`D[K] = ..`/setdefault with `D[K]`/`K in D`/`D.get(K)`) has its key "
+    "followed through reaching definitions, or/and/conditional expressions, "
+    "tuples and module-local or same-class helpers; a key alternative that "
+    "is derived from the current opcode must hold the opcode object itself "
+    "or both its code object and its index; line, code.name, code.filename, "
+    "index alone, type(op), str(op) are shared by distinct opcodes and are "
+    "reported.  No class of pyc/opcodes.py may define __eq__/__hash__ "
+    "(identity equality is what makes the opcode a location).  Blind spots "
+    "of R14.25: opcodes that reach a memo through a parameter or a frame "
+    "field other than current_opcode, helpers in other modules, a key that "
+    "lacks a location component altogether (the instances then vanish: floor "
+    "-> analysis error, not a violation), and pytype/rewrite/.")
+ASSUMPTIONS += [
+    "R14.25: an attribute named current_opcode holds the opcode being "
+    "executed (vm.VirtualMachine.current_opcode, state.Frame.current_opcode); "
+    "Opcode.index is unique within one code object and Opcode.code is the "
+    "code object it belongs to",
+]
